@@ -320,7 +320,7 @@ def history_case(ctx, case):
     for c in range(1, cmax + 1):
         for per in (False, True):
             objs[("nb", per, c)] = (NeighbourInteraction(periodic_bcs=per, c=c), lambda per=per, c=c: NeighbourInteraction(periodic_bcs=per, c=c))
-    states, tensors = {}, {}
+    states, tensors, mut = {}, {}, {}
     ctx.case({"hist": steps}, nontrivial=True, sample={"history": [(s["kind"], s["n"], len(s["samples"])) for s in steps]})
     ctx.count("history_case")
     for i, s in enumerate(steps):
@@ -350,7 +350,31 @@ def history_case(ctx, case):
         if ctx.driver is not None:
             model = ctx.driver.call("c08.eval", samples=samples, cs=cs, pairs=[], **state_req(kind, n, h, a, am, ph))
         fresh_st = build_state(kind, n, h, a, am, ph)
-        for key2, (obj, mkfresh) in objs.items():
+        # observables whose PUBLIC attributes (c, periodic_bcs, absolute) are reassigned between applications: the value must
+        # follow the current attributes (no state derived from earlier ones may survive)
+        if "mut" not in objs:
+            objs["mut"] = None
+            mut["nb"] = NeighbourInteraction(periodic_bcs=True, c=1)
+            mut["sx"] = SigmaX(absolute=False)
+        c_now = 1 + (i * 2 + 1) % cmax
+        per_now = (i % 3 != 1)
+        mut["nb"].c = c_now
+        mut["nb"].periodic_bcs = per_now
+        mut["sx"].absolute = (i % 2 == 1)
+        if model is not None:
+            vals_m = impl_apply(mut["nb"], st, t)[0]
+            mk_ = "periodic" if per_now else "open"
+            cmp_vals(ctx, f"history: NeighbourInteraction with attributes reassigned to (periodic={per_now}, c={c_now})", "property", vals_m,
+                     model[mk_][cs.index(c_now)], {**sub, "observable": "neighbour(mutable)", "c": c_now, "periodic": per_now}, THEOREMS[mk_],
+                     f"{kind}/neighbour/{mk_}/attributes-reassigned")
+            vals_x = impl_apply(mut["sx"], st, t)[0]
+            cmp_vals(ctx, f"history: SigmaX with absolute reassigned to {i % 2 == 1}", "property", vals_x,
+                     model["sigmaX"]["vals" + ("_abs" if i % 2 == 1 else "")], {**sub, "observable": "sigmaX(mutable)"}, THEOREMS["sigmaX"],
+                     f"{kind}/sigmaX/attributes-reassigned")
+        for key2, pair_ in objs.items():
+            if key2 == "mut":
+                continue
+            obj, mkfresh = pair_
             vals, shape_ok, unchanged = impl_apply(obj, st, t)
             nm = key2[0] if key2[0] != "nb" else f"neighbour(periodic={key2[1]},c={key2[2]})"
             sub2 = {**sub, "observable": nm, "absolute": key2[1] if key2[0] != "nb" else None}
